@@ -37,6 +37,7 @@ func (w *World) onObservation(inc *Inc, o *raft.Observation) {
 		inc.obsStates = append(inc.obsStates, d)
 		if (prev == raft.Leader) != (d == raft.Leader) {
 			inc.transitions++
+			inc.lastTransStep = w.sim.Steps
 		}
 	}
 }
@@ -152,7 +153,11 @@ func (o *Oracle) onReturn(c *Call, inc *Inc) {
 			return
 		}
 		f := inc.fsm
-		for i, g := range o.ghost {
+		for i := uint64(0); i <= o.maxGhost; i++ {
+			g := o.ghost[i]
+			if g == nil {
+				continue
+			}
 			if i < c.Index && g.ent.Type == raft.LogCommand && g.seq < c.ReturnSeq {
 				if _, ok := f.applied[i]; !ok && i > f.restoreIdx {
 					w.violate("C08", "C08/barrier-before-apply", "%s: Barrier at index %d returned but the local FSM has not applied committed entry %d", inc.tag, c.Index, i)
@@ -203,7 +208,11 @@ func (o *Oracle) finalChecks() {
 	}
 	// payload -> ghost indexes
 	at := map[string][]uint64{}
-	for i, g := range o.ghost {
+	for i := uint64(0); i <= o.maxGhost; i++ {
+		g := o.ghost[i]
+		if g == nil {
+			continue
+		}
 		if g.ent.Type == raft.LogCommand {
 			at[g.ent.Data] = append(at[g.ent.Data], i)
 		}
